@@ -44,6 +44,16 @@ func c04IsTool(command string) bool {
 	case c04NonTools[first]:
 		return false
 	}
+	// a known tool name separated from the rest by anything but one plain blank, or preceded by
+	// white space, is not "the command starts with the tool" (pinned rule: tool + " ", or the bare tool)
+	if f := strings.Fields(lower); len(f) > 0 && c04Tools[f[0]] {
+		return false
+	}
+	for tool := range c04Tools {
+		if strings.HasPrefix(lower, tool) && len(lower) > len(tool) && !isWordByte(lower[len(tool)]) && lower[len(tool)] != ' ' {
+			return false // "git,status", "ls\npwd"
+		}
+	}
 	return database.VerifIsCrossPlatformTool(command)
 }
 
@@ -54,6 +64,10 @@ func c04Cmd() *rapid.Generator[database.Command] {
 		c := base.Draw(t, "c")
 		if rapid.Bool().Draw(t, "tool-prefix") {
 			c.Command = rapid.SampledFrom(c04FirstWords).Draw(t, "first") + " " + c.Command
+		} else if rapid.IntRange(0, 5).Draw(t, "tool-odd-blank") == 0 {
+			// a tool name that is not followed by a plain blank, or not at the very start
+			tool := rapid.SampledFrom([]string{"git", "curl", "ls", "docker", "rsync", "tar"}).Draw(t, "odd-tool")
+			c.Command = rapid.SampledFrom([]string{tool + "\t" + c.Command, tool + "\n" + c.Command, " " + tool + " " + c.Command, tool + "\u00a0" + c.Command, "\t" + tool + " " + c.Command, tool + "," + c.Command}).Draw(t, "odd-shape")
 		}
 		return c
 	})
@@ -331,4 +345,8 @@ func TestC04_Concurrent(t *testing.T) {
 		}
 		rec.Case(true, map[string]any{"concurrent": true, "goroutines": g, "db_size": len(cmds)}, "concurrent-filters")
 	})
+}
+
+func isWordByte(b byte) bool {
+	return b >= 'a' && b <= 'z' || b >= '0' && b <= '9' || b == '-' || b == '_' || b >= 0x80
 }
